@@ -85,7 +85,12 @@ TCloseEnd ==
 TCloseBegin ==
   /\ IsEvent("CloseStep") /\ Ev.phase = "begin"
   /\ phase = "closing" /\ CompOf(Ev.comp) = Cur
-  /\ IF sub = "flush" THEN FlushSkipped ELSE UNCHANGED vars     \* Sender.close entered without waiting for the flush
+  \* Sender.close entered without the flush having returned: the sender task is dead (it was, or died during the wait)
+  /\ IF sub = "flush"
+     THEN /\ Measured(Ev)["sender"] = 0
+          /\ live' = Measured(Ev) /\ sub' = "await"
+          /\ UNCHANGED <<phase, step, timers, conns, joined, coordOk, left, reachAtLeave, raised, waits, inBackoff, rebDone, hasAssign>>
+     ELSE UNCHANGED vars
   /\ Same
 
 \* stop() returned: every component was closed, no exception, within the bound
